@@ -1470,6 +1470,81 @@ fn pin_neighbour_case(args: &Args, rep: &mut Report, rng: &mut Rng) {
     rep.note("pin-neighbour case: every pin_object/unpin_object call is made by the only thread that ever touches that object's pin bit, so the documented result ('true if the object status changed from non-pinned to pinned') must be true; neighbours are other objects' pin bits in the same side-metadata byte (objects 8/16/32 bytes apart) resp. the mark and log bit of the same object in the same header byte, changed by their own real transition functions");
 }
 
+
+/// `CompressorSpace::test_and_mark` (a `fetch_update` on the 1-bit-per-word Compressor mark bitmap)
+/// raced by several threads: exactly one racer per object may see the 0->1 transition as its own,
+/// while the marks of the seven other words of the same metadata byte are being set concurrently
+/// (every thread walks all objects, in different orders), and the bit must end up set.
+fn compressor_mark_race(seed: u64, rounds: u64, maxt: usize, rep: &mut Report, hb: &Heartbeat) {
+    let mark = mv::compressor::specs()[0];
+    const N: usize = 512;
+    let base = data_range(N * 8);
+    if !mv::map_side_metadata(&[mark], addr(base), (N * 8 + 4095) & !4095) {
+        rep.inconclusive("could not map the Compressor mark bitmap for a data range");
+        return;
+    }
+    let sig = "trans:CompressorSpace::test_and_mark[0->1]:side:mark-bitmap";
+    let mut rng = Rng::new(mix(seed, 0xC0_18));
+    let wins: Vec<AtomicU32> = (0..N).map(|_| AtomicU32::new(0)).collect();
+    let wins_r = &wins;
+    let (mut objects, mut contended) = (0u64, 0u64);
+    for round in 0..rounds * 40 {
+        let threads = [2usize, 4, 8, 3][(round % 4) as usize].min(maxt);
+        for (i, w) in wins.iter().enumerate() {
+            w.store(0, SC);
+            mark.store_atomic::<u8>(addr(base + i * 8), 0, SC);
+        }
+        let gate = ThreadBarrier::new(threads);
+        let gate_r = &gate;
+        let rseed = rng.next();
+        hb.enter(sig, || format!("seed={} round={}: a racer does not return from test_and_mark", seed, round));
+        let lost_per_thread: Vec<u64> = std::thread::scope(|s| {
+            let hs: Vec<_> = (0..threads)
+                .map(|t| {
+                    s.spawn(move || {
+                        // orders: forwards, backwards, and rotations, so that different threads hit
+                        // the same object and neighbouring bits of one byte at the same time
+                        let rot = (mix(rseed, t as u64) as usize) % 8;
+                        let mut lost = 0u64;
+                        gate_r.wait();
+                        for k in 0..N {
+                            let i = match t % 3 {
+                                0 => k,
+                                1 => N - 1 - k,
+                                _ => (k / 8) * 8 + (k + rot) % 8,
+                            };
+                            if mv::compressor::test_and_mark::<SideVM>(objref(base + i * 8)) {
+                                wins_r[i].fetch_add(1, SC);
+                            } else {
+                                lost += 1;
+                            }
+                        }
+                        lost
+                    })
+                })
+                .collect();
+            hs.into_iter().map(|h| h.join().unwrap_or(0)).collect()
+        });
+        hb.leave();
+        for i in 0..N {
+            let w = wins[i].load(SC);
+            let bit = mark.load_atomic::<u8>(addr(base + i * 8), SC);
+            objects += 1;
+            if w != 1 || bit != 1 {
+                rep.violation(
+                    format!("{}:{}", sig, if w == 0 { "no-thread-got-true" } else if w > 1 { "several-threads-got-true" } else { "final-state-not-marked" }),
+                    format!("seed={} round={} {} racers: object {:#x} (word {} of its metadata byte): {} racers observed the transition as their own, final mark bit {}", seed, round, threads, base + i * 8, i % 8, w, bit),
+                );
+                return;
+            }
+        }
+        contended += lost_per_thread.iter().sum::<u64>();
+        rep.eval(mix(hs(sig), threads as u64));
+    }
+    rep.count("compressor_mark_objects_raced", objects);
+    rep.count("compressor_mark_attempts_lost", contended);
+}
+
 pub fn run(args: &Args, rep: &mut Report) {
     let seed = args.seed();
     let mut rng = Rng::new(seed ^ 0xC18);
@@ -1567,6 +1642,9 @@ pub fn run(args: &Args, rep: &mut Report) {
                 }
             }
             hb.leave();
+        }
+        if only.is_none() || only.as_deref() == Some("Compressor") {
+            compressor_mark_race(seed, rounds, maxt, rep, hb);
         }
         rep.count("configs", st.configs);
         rep.count("objects_raced_a_racers_only", st.objects_a);
